@@ -8,6 +8,8 @@ from univers.version_constraint import VersionConstraint
 
 MODULES = ["Univers.Props.C07", "Univers.Props.Schemes"]
 LEVEL = "proof"
+# function-level tie (translator + agreement theorem): see runner step 3a
+TIE_THEOREMS = {"Univers.Vers.GenValidateThm": ["Univers.Gen.LayerB.validate_comparators_eq"]}
 RULE = ("bounded-exhaustive: every comparator sequence up to length L over distinct versions, presented in a "
         "seeded random order, plus variants with one duplicated version and with stars, on real versions of every "
         "scheme, against the Lean model `validate` and the spec `WF` on ranks; accepted lists are then probed for "
@@ -41,7 +43,7 @@ def _lines(ctx, L):
 
 
 def correspondence(ctx):
-    L = 6 if ctx.thorough else 4
+    L = 6 if ctx.thorough else (5 if ctx.deepen else 4)
     jobs = _lines(ctx, L)
     lines = ["validate %s" % B.cons_line(c) for c in jobs]
     answers = common.run_model(lines)
@@ -104,6 +106,22 @@ def _through_from_string(ctx, name, bench, cons, objs, expected, line, m):
     if S.rclass(name) is None or not cons:
         return
     stream = "from_string:" + name
+    if any(c == "star" for c, _ in cons) and len(cons) >= 2:
+        # a star among other constraints: the parser itself must refuse the text with a ValueError, under any flags
+        try:
+            text = "vers:%s/%s" % (S.rclass(name).scheme, "|".join(str(o) for o in objs))
+        except Exception:  # noqa: BLE001
+            return
+        for kw in ({}, {"validate": True}, {"simplify": True}, {"simplify": True, "validate": True}):
+            got = B.res_bool(lambda: VersionRange.from_string(text, **kw) is not None)
+            ctx.count(stream + ":star", key=(line, tuple(sorted(kw))), nontrivial=True)
+            if got != "err:ValueError" and not (got == "ok:true" and all(c == "star" for c, _ in cons)):
+                d = B.describe(bench, cons, m, objs=objs)
+                d.update({"text": text, "flags": kw, "clause": "a star among other constraints: from_string %s, expected a ValueError" % got,
+                          "python": "from univers.version_range import VersionRange as R; print(R.from_string(%r, **%r))" % (text, kw)})
+                ctx.disagree(stream + ":star", line, got, "err:ValueError", True, d, spec="err:ValueError")
+                return
+        return
     try:
         text = "vers:%s/%s" % (S.rclass(name).scheme, "|".join(str(o) for o in objs))
         plain = VersionRange.from_string(text)
